@@ -159,8 +159,10 @@ pub fn run(ctx: &mut Ctx) {
         let mode = MODES[r.below(4)];
         let nat = Curve::new(mode, &pts, None, &mut bufs);
         let nd = nat.dist();
-        let l = match r.below(8) {
+        let l = match r.below(10) {
             0 => None,
+            8 => Some(0.0),
+            9 => Some(-r.f() * 50.0),
             1 => Some(1e-3),
             2 => Some(nd * r.f()),
             3 => Some(nd),
@@ -169,14 +171,18 @@ pub fn run(ctx: &mut Ctx) {
             6 => Some(131_072.0),
             _ => Some(r.f() * 10.0),
         }
-        .filter(|l| *l > 0.0 && l.is_finite());
+        .filter(|l: &f64| l.is_finite());
         let w = format!("{mode:?} {} L={l:?}", paths::describe(&pts));
         ctx.case(i, w.as_bytes(), |ctx| {
             let c = match l {
                 None => nat.clone(),
                 Some(l) => Curve::new(mode, &pts, Some(l), &mut bufs),
             };
-            ctx.count(if l.is_some() { "adjusted_curves" } else { "natural_curves" });
+            ctx.count(match l {
+                None => "natural_curves",
+                Some(l) if l <= 0.0 => "non_positive_length_curves",
+                Some(_) => "adjusted_curves",
+            });
             relations(ctx, i, &c, &w, Some(&mut r), true);
             // the borrowed view answers identically
             let b = c.as_borrowed_curve();
